@@ -5,6 +5,7 @@ Exit codes (DESIGN 3.7): 0 every obligation discharged (known findings aside) / 
 """
 from __future__ import annotations
 
+import hashlib
 import json
 import os
 import shutil
@@ -161,7 +162,8 @@ class Report:
                     known_hit.append((Obligation(f"{self.prop}.standin.{si.name}", "bounded", kf.get("what", ""), KNOWN), kf))
                     continue
                 violations += 1
-                ob = Obligation(f"{self.prop}.standin.{si.name}.{slug(repr(fl.get('input'))[:60])}", "bounded",
+                tag = hashlib.sha1(repr(fl.get("input")).encode("utf-8", "backslashreplace")).hexdigest()[:6]       # distinct inputs, distinct replay files
+                ob = Obligation(f"{self.prop}.standin.{si.name}.{slug(repr(fl.get('input'))[:60])}.{tag}", "bounded",
                                 f"bounded stand-in {si.name}: {fl.get('what', 'disagreement')}", FAILED, "cpython-exec",
                                 detail=json.dumps(fl, default=str)[:2000], witness=fl.get("input"),
                                 replay={"reproduced": True, "observed": fl.get("observed")}, bounded=True)
